@@ -1,11 +1,13 @@
 (** extraction of the generated naming functions for the C17 correspondence *)
 From Coq Require Import Ascii String List Bool Arith ZArith NArith.
 From PTBase Require Import Exn PyStr PyNum PyVal Wire.
+From P Require Import PyExt.
 From Gen Require Import GenNames.
 Import ListNotations.
 
 Definition colon : ascii := ":"%char.
-(** argument encodings: N | I:<z> | S:<hex> | B:0/1 | F:r/l | D:<hex>,<hex>,.. (dict keys) | L:<n> (list of n items) *)
+(** argument encodings: N | I:<z> | S:<hex> | B:0/1 | F:r/l | D:<hex>,<hex>,.. (dict keys) | L:<n> (list of n items)
+    | SL:<hex>,.. (list of strings) | M:<hex>=<hex>,.. (dict of strings) *)
 Definition dec_arg (s : str) : pyval :=
   match split_c colon s with
   | [k; a] => if str_eqb k (s2l "I") then VInt (z_of_str a)
@@ -14,6 +16,10 @@ Definition dec_arg (s : str) : pyval :=
               else if str_eqb k (s2l "F") then VFn (if str_eqb a (s2l "l") then F_ljust else F_rjust)
               else if str_eqb k (s2l "D") then VDict (map (fun h => (VStr (unhex h), VNone)) (filter (fun h => negb (str_eqb h [])) (split_c ","%char a)))
               else if str_eqb k (s2l "L") then VList (repeat VNone (nat_of_str a))
+              else if str_eqb k (s2l "SL") then VList (map (fun h => VStr (unhex h)) (filter (fun h => negb (str_eqb h [])) (split_c ","%char a)))
+              else if str_eqb k (s2l "M") then
+                VDict (map (fun e => match split_c "="%char e with [x; y] => (VStr (unhex x), VStr (unhex y)) | _ => (VNone, VNone) end)
+                           (filter (fun h => negb (str_eqb h [])) (split_c ","%char a)))
               else VNone
   | _ => VNone
   end.
@@ -37,9 +43,16 @@ Definition run_case (line : str) : str :=
       match a with
       | [x] => if is k "fix" then gen_fix_blockname x else if is k "unfix" then gen_unfix_blockname x
                else if is k "valid" then gen_valid_blockname x else if is k "uniq" then gen_uniqstring x
-               else if is k "tbl" then tables x else Raise PlainException
+               else if is k "tbl" then tables x
+               (* fix_block_mapping: the final dictionary, printed as its item list *)
+               else if is k "fixmap" then (do r <- gen_fix_block_mapping 0 x; py_items r)
+               else Raise PlainException
       | [x; y] => if is k "colname" then gen_column_name x y else if is k "layname" then gen_layer_name x y
-                  else if is k "pad" then gen_padstring x y else Raise PlainException
+                  else if is k "pad" then gen_padstring x y
+                  else if is k "rectchars" then gen_rectangular x y else Raise PlainException
+      | [conv; lay; col; m] => if is k "blkmap" then gen_block_name conv lay col m else Raise PlainException
+      (* refine_layers (name slice): right_justified_names convention layername_length names chars spaces thicknesses; fuel 3 *)
+      | [rj; conv; len; names; chars; sp; ths] => if is k "reflay" then gen_refine_layers 3 rj conv len names chars sp ths else Raise PlainException
       | [i; st; chars; sp; len] => if is k "i2c" then gen_int_to_chars (fuel_of i) i st chars sp len else Raise PlainException
       | [conv; clen; num; jf; chars; sp] =>
           if is k "colnum" then gen_column_name_from_number conv clen num jf chars sp
@@ -50,6 +63,9 @@ Definition run_case (line : str) : str :=
           (* add_layers (name slice) convention layername_length thicknesses justify chars spaces, with the 3 units of fuel
              of theorem add_layers_layer_names *)
           else if is k "addlay" then gen_add_layers 3 conv clen num jf chars sp
+          (* new_node_name / new_column_name: dict colname_length istart justfn chars spaces, fuel |d| + 2 *)
+          else if is k "newnode" then gen_new_node_name (dict_size conv + 2) conv clen num jf chars sp
+          else if is k "newcol" then gen_new_column_name (dict_size conv + 2) conv clen num jf chars sp
           else Raise PlainException
       | [conv; lay; col] => if is k "blkname" then gen_block_name conv lay col (VDict []) else Raise PlainException
       | _ => Raise PlainException
